@@ -954,8 +954,8 @@ def run_json_representable(chk: Check, ix) -> None:
 
 
 def run_definition_after_load(chk: Check, ix) -> None:
-    """R11.16: what fix-up establishes on every loaded function, a fresh analysis establishes too."""
-    r16 = chk.rule("R11.16", "fix-up sets `func.type.definition = func` on every FuncDef it loads (the definition is not serialised), so after a reload every method has one; the helpers that synthesise methods during a fresh analysis (mypy/plugins/common.py: the FuncDef of a dataclass __init__ and friends) therefore set it as well, or messages that consult it ('\"D\" defined in \"a\"') are printed on warm runs only", floor=2)
+    """R11.16: a synthesised method has the same `definition` fresh and after a cache load."""
+    r16 = chk.rule("R11.16", "fix-up sets `func.type.definition = func` on every FuncDef it loads (the definition is not serialised); methods synthesised by plugins (mypy/plugins/common.py: the __init__ of a dataclass and friends) are created without one. The two sides agree in one of two ways: the synthesising helper sets the definition, or the loader (SymbolTableNode.node, where lazy fix-up runs) clears it again for plugin_generated symbols. Otherwise messages that consult it ('\"D\" defined in \"a\"') are printed on warm runs only", floor=2)
     fx = ix.func("mypy.fixup.NodeFixer.visit_func_def")
     sets = any(isinstance(a, ast.Assign) and isinstance(a.targets[0], ast.Attribute) and a.targets[0].attr == "definition" for a in ast.walk(fx.node))
     if not sets:
@@ -963,7 +963,8 @@ def run_definition_after_load(chk: Check, ix) -> None:
         return
     r16.ok("fix-up sets the definition of every loaded FuncDef's type", fx.loc())
     mod = ix.module("mypy.plugins.common")
-    n = 0
+    fresh_sets = []
+    synth = []
     for f in sorted(mod.functions.values(), key=lambda f: f.node.lineno):
         makes = [a for a in ast.walk(f.node) if isinstance(a, ast.Assign) and isinstance(a.value, ast.Call) and call_name(a.value) == "FuncDef" and isinstance(a.targets[0], ast.Name)]
         for mk in makes:
@@ -971,12 +972,25 @@ def run_definition_after_load(chk: Check, ix) -> None:
             typed = [a for a in ast.walk(f.node) if isinstance(a, ast.Assign) and norm(a.targets[0]) == f"{v}.type"]
             if not typed:
                 continue
-            n += 1
-            key = f"{f.qualname}: the synthesised FuncDef `{v}` gets a type with its definition"
-            has_def = any(isinstance(a, ast.Assign) and norm(a.targets[0]) == f"{v}.type.definition" for a in ast.walk(f.node)) or any(isinstance(k, ast.keyword) and k.arg == "definition" for a in typed for k in ast.walk(a.value))
-            if has_def:
-                r16.ok(key, f.loc(typed[0]))
-            else:
-                r16.violation(key, f.loc(typed[0]), f"`{v}.type` is assigned but its `definition` stays None until the module is reloaded from the cache, where fix-up sets it: diagnostics about calls of the generated method differ between cold and warm runs")
-    if n < 1:
+            synth.append((f, typed[0]))
+            if any(isinstance(a, ast.Assign) and norm(a.targets[0]) == f"{v}.type.definition" and not (isinstance(a.value, ast.Constant) and a.value.value is None) for a in ast.walk(f.node)):
+                fresh_sets.append(f)
+    if not synth:
         raise AnalysisError("no synthesised FuncDef with a type found in mypy/plugins/common.py")
+    getter = ix.func("mypy.nodes.SymbolTableNode.node")
+    from ..cfg import branch_conditions
+    par = getter.module.parents()
+    clears = []
+    for a in ast.walk(getter.node):
+        if isinstance(a, ast.Assign) and isinstance(a.targets[0], ast.Attribute) and a.targets[0].attr == "definition" and isinstance(a.value, ast.Constant) and a.value.value is None:
+            pos, _ = branch_conditions(par, getter.node, a)
+            if any("plugin_generated" in norm(t) for t in pos):
+                clears.append(a)
+    key = "plugin-synthesised methods have the same `definition` on a fresh analysis and after a cache load"
+    f0, t0 = synth[0]
+    if len(fresh_sets) == len({f for f, _ in synth}):
+        r16.ok(key, f0.loc(t0), "the synthesising helper sets it")
+    elif clears and not fresh_sets:
+        r16.ok(key, getter.loc(clears[0]), "none on a fresh analysis; the loader clears what fix-up set for plugin_generated symbols")
+    else:
+        r16.violation(key, f0.loc(t0), f"the synthesised FuncDef's type has no definition until the module is reloaded from the cache, where fix-up sets it (and nothing clears it for plugin_generated symbols): diagnostics about calls of the generated method differ between cold and warm runs")
